@@ -218,4 +218,53 @@ theorem setrange_stores (c : Ctx) (db : Db) (k b v : Bytes) (ent : Entry) (off :
   have a0 : ¬ (off < 0) := by omega
   simp only [a0, ↓reduceIte, h1, Bool.false_eq_true, hl, hv]
 
+/-! ### APPEND, SET with NX / XX, STRLEN, GETDEL -/
+
+/-- APPEND on a string: the value becomes old ++ new, the deadline stays, the reply is the new length -/
+theorem append_existing (c : Ctx) (db : Db) (k b v : Bytes) (ent : Entry)
+    (hl : db.live c.now k = some ent) (hv : ent.val = .str b) (hq : c.q.appendDropsTtl = false) :
+    cmdAppend c db k v = R.ok (db.put k (.str (b ++ v)) ent.exp) (vInt (b.length + v.length)) := by
+  unfold cmdAppend setKey
+  simp [hl, hv, hq]
+
+/-- APPEND on a missing key creates it with the appended bytes and no deadline -/
+theorem append_missing (c : Ctx) (db : Db) (k v : Bytes) (hl : db.live c.now k = none) :
+    cmdAppend c db k v = R.ok (db.put k (.str v) none) (vInt v.length) := by
+  unfold cmdAppend setKey
+  simp [hl]
+
+/-- SET … NX on an existing key and SET … XX on a missing key change nothing and answer nil -/
+theorem set_nx_existing (c : Ctx) (db : Db) (k v : Bytes) (ent : Entry) (o : SetOpts)
+    (hl : db.live c.now k = some ent) (hnx : o.nx = true) (hg : o.get = false)
+    (he : (o.exp.map ExpArg.invalid).getD false = false) :
+    cmdSet c db k v o false = R.ok db .nil := by
+  unfold cmdSet setKey
+  simp [hl, hnx, hg, he, optV]
+
+theorem set_xx_missing (c : Ctx) (db : Db) (k v : Bytes) (o : SetOpts)
+    (hl : db.live c.now k = none) (hxx : o.xx = true)
+    (he : (o.exp.map ExpArg.invalid).getD false = false) :
+    cmdSet c db k v o false = R.ok db .nil := by
+  unfold cmdSet setKey
+  simp [hl, hxx, he, optV]
+
+/-- plain SET replaces any value of any type and clears the deadline -/
+theorem set_plain (c : Ctx) (db : Db) (k v : Bytes) :
+    cmdSet c db k v {} false = R.ok (db.put k (.str v) none) vOK := by
+  unfold cmdSet setKey
+  cases hl : db.live c.now k <;> simp [optV]
+
+/-- STRLEN and GETDEL -/
+theorem strlen_spec (c : Ctx) (db : Db) (k b : Bytes) (ent : Entry)
+    (hl : db.live c.now k = some ent) (hv : ent.val = .str b) :
+    cmdStrlen c db k = R.ok db (vInt b.length) := by
+  unfold cmdStrlen
+  cases ent; simp_all
+
+theorem getdel_spec (c : Ctx) (db : Db) (k b : Bytes) (ent : Entry)
+    (hl : db.live c.now k = some ent) (hv : ent.val = .str b) :
+    cmdGetDel c db k = R.ok (db.del k) (.bulk b) := by
+  unfold cmdGetDel
+  cases ent; simp_all
+
 end RedisEmu
